@@ -33,6 +33,8 @@ class Prop(RefProp):
                 gen_pipes.shared_failure_handler(rng, case)
             elif r < 0.14:
                 gen_pipes.handler_jumps(rng, case)
+            elif r < 0.19:
+                gen_pipes.per_iteration_decorators(rng, case)
             cases.append(case)
         return cases
 
